@@ -311,6 +311,17 @@ def impl_ops(case):
             te.append("batch", np.arange(n_ - h, dtype=np.float64) + 20)
             snap = lambda q: {"names": list(q.names), "data": np.asarray(q.data).tolist()}
             out["siblings"] = [C.guarded(lambda: snap(o.subset(names=q))) for o, q in ((tr, ("prs",)), (te, ("batch",)), (te, ("prs",)), (p, ("prs",)), (tr, (case["names"][0], "prs")), (p, ("batch", case["names"][0])))]
+    if len(set(case["names"])) == len(case["names"]):
+        # subsets of an object that was reordered / cut down in place before (its lookups were built for the old layout)
+        S_, N_ = case["samples"], case["names"]
+        full = lambda q: {"names": list(q.names), "samples": list(q.samples), "data": np.asarray(q.data).tolist()}
+        p = mk()
+        p.subset(samples=tuple(S_[::-1]), names=tuple(N_[::-1]), inplace=True)
+        hist = [C.guarded(lambda: full(p)), C.guarded(lambda: full(p.subset(samples=tuple(S_[: max(1, len(S_) // 2)])))), C.guarded(lambda: full(p.subset(names=tuple(N_[:1]))))]
+        p.subset(samples=tuple(S_[1:] or S_), inplace=True)
+        hist.append(C.guarded(lambda: full(p.subset(samples=tuple(S_[-1:]), names=tuple(N_[-1:])))))
+        hist.append(C.guarded(lambda: full(p.subset(samples=tuple(S_[1:] or S_)))))
+        out["inplace_history"] = hist
     p = mk()
     r = p.subset(samples=None if case["rs"] is None else tuple(case["rs"]), names=None if case["cs"] is None else tuple(case["cs"]))
     out["subset"] = {"names": list(r.names), "samples": list(r.samples), "data": np.asarray(r.data).tolist()}
@@ -371,6 +382,16 @@ def oracle_ops(case, obs):
         for k, (g, w) in enumerate(zip(obs["siblings"], want)):
             if g != w:
                 return f"two tables cut from one (first {h} samples / the rest), 'prs' appended to the first and 'batch' to the second: by-name selection no. {k} gave {g}, expected {w}"
+    if "inplace_history" in obs:
+        S_, N_ = case["samples"], case["names"]
+        cell = lambda sm, nm: D[S_.index(sm)][N_.index(nm)]
+        tbl = lambda ss, nn: {"names": list(nn), "samples": list(ss), "data": [[cell(a_, b_) for b_ in nn] for a_ in ss]}
+        rest = S_[1:] or S_
+        want = [tbl(S_[::-1], N_[::-1]), tbl(S_[: max(1, len(S_) // 2)], N_[::-1]), tbl(S_[::-1], N_[:1]), tbl(S_[-1:], N_[-1:]), tbl(rest, N_[::-1])]
+        what = ["the table itself after subset(all samples reversed, all names reversed, inplace=True)", "then subset(samples=first half)", "then subset(names=first name)", "after a second in-place subset dropping the first sample: subset(last sample, last name)", "… and subset(samples=all but the first, in file order)"]
+        for g, w, t in zip(obs["inplace_history"], want, what):
+            if g != w:
+                return f"{t} gave {g}, expected {w}"
     a = obs["append"]
     if a["names"] != case["names"] + ["extra"] or a["samples"] != case["samples"] or a["data"] != [D[i] + [float(i)] for i in range(ns)]:
         return f"append produced {a}"
